@@ -14,8 +14,9 @@ import (
 type SyncOpts struct {
 	Delta       time.Duration // upper bound of the latency of messages sent by correct replicas (and of the late arrival of old messages)
 	Rng         *rand.Rand
-	ByzMode     string // silent | honestlike | withhold-leader | equivocate | inflated-pacemaker | wrong-phase-commit | stale-election-cert | highqc-without-block
-	ExtraRounds uint64 // give up once a correct replica's round exceeds RGst + ExtraRounds
+	ByzMode     string                       // silent | honestlike | withhold-leader | equivocate | inflated-pacemaker | wrong-phase-commit | stale-election-cert | highqc-without-block
+	ExtraRounds uint64                       // give up once a correct replica's round exceeds RGst + ExtraRounds
+	Limit       func(res *SyncResult) uint64 // when set: computes ExtraRounds from what is known at GST (Aligned, CapRounds)
 	MaxEvents   int
 	Old         string // which undelivered pre-GST messages still arrive: "relevant" (current root, round >= the lowest current round, block gossip) | "all"
 	Hooks       *SyncHooks
@@ -244,6 +245,9 @@ func (s *Sim) RunSynchronous(o SyncOpts) *SyncResult {
 		}
 	}
 	noteCommits()
+	if o.Limit != nil {
+		o.ExtraRounds = o.Limit(res)
+	}
 	var now time.Duration
 	eq := map[int]bool{} // equivocate: rounds already split
 	reacted := map[string]bool{}
